@@ -204,6 +204,24 @@ def check_tree(tree, freqs, st, viol, keys, label):
             routes["builder"] = G.build_builder(tree)
         except Exception as e:
             bad(f"C01/builder-raised:{type(e).__name__}", monitors.tb_tail(e))
+    # CircuitBuilder filled incrementally, converted midway, and converted again after a held element changed
+    if G.builder_ok(tree):
+        try:
+            first, second, (che, chk, chv) = G.build_builder_incremental(tree)
+            routes["builder-incremental"] = first
+            st["builder_incremental"] = st.get("builder_incremental", 0) + 1
+            if second is not None:
+                import copy as _copy
+
+                st["builder_reconverted_after_change"] = st.get("builder_reconverted_after_change", 0) + 1
+                t2 = _copy.deepcopy(tree)
+                spec = [e_ for e_ in G.iter_elements(t2, include_subs=False)][che]
+                spec["p"][chk][0] = G.enc(chv)
+                d2 = G.compare_nf(G.nf(t2), G.nf_of_circuit(second), 2e-12)
+                if d2:
+                    bad("C01/builder-stale-after-change", f"after {spec['sym']}.set_values({chk}={chv!r}) on an element the builder holds, to_circuit() gives: {d2}")
+        except Exception as e:
+            bad(f"C01/builder-incremental-raised:{type(e).__name__}", monitors.tb_tail(e))
     # the documented Circuit(...) overloads: Circuit([elements]), Circuit(element), Circuit(Parallel)
     for form in ("list", "element", "parallel"):
         applicable = ((form == "list" and len(tree["c"]) > 0 and all(c["t"] == "E" for c in tree["c"]))
@@ -484,7 +502,7 @@ def finalize(agg):
     s = agg["stats"]
     inc = []
     for need in ("compared_points", "ref_open_branch", "ref_short_branch", "route_pairs", "vector_relations", "simulate_spectrum", "subcircuit_compared",
-                 "overload:list", "overload:element", "overload:parallel"):
+                 "overload:list", "overload:element", "overload:parallel", "builder_incremental", "builder_reconverted_after_change"):
         if s.get(need, 0) == 0:
             inc.append(f"'{need}' never observed")
     return {"viol": [], "inconclusive": inc}
